@@ -296,6 +296,9 @@ class Interp(object):
                 return obj.attrs[attr]
             if attr == '__name__':
                 return obj.name
+            if attr == '__new__':
+                # object.__new__(cls): a bare instance, no __init__ (and hence no contract of the constructor)
+                return Builtin('object.__new__', lambda interp, args, kw, node_: Instance(args[0]))
         return bi.getattr_builtin(self, obj, attr, node)
 
     def e_Subscript(self, node, env):
